@@ -175,10 +175,20 @@ func (t TypeList) Find(name string) (Type, bool) {
 
 func (t *TypeList) Add(item ...Type) {
 	for _, i := range item {
-		if i.Name() != "" {
+		if i.Name() != "" && !t.contains(i) {
 			t.types = append(t.types, i)
 		}
 	}
+}
+
+// contains reports whether this very type object is in the list already.
+func (t *TypeList) contains(item Type) bool {
+	for _, known := range t.types {
+		if known == item {
+			return true
+		}
+	}
+	return false
 }
 
 func (t *TypeList) AddAndRet(item Type) Type {
